@@ -2,10 +2,10 @@
 interleavings at operation granularity explored sequentially"""
 import os
 from vf.core import *
-ROOTS = ['vf_lg_init', 'vf_lg_run', 'vf_lg_send', 'vf_lg_enqueue', 'vf_lg_stop', 'vf_lg_stop_step1', 'vf_lg_stop_step2', 'vf_lg_stopping', 'vf_le_copy', 'vf_le_val', 'vf_le_empty', 'vf_le_size']
+ROOTS = ['vf_lg_init', 'vf_lg_run', 'vf_lg_send', 'vf_lg_enqueue', 'vf_lg_stop', 'vf_lg_stop_step1', 'vf_lg_stop_step2', 'vf_lg_stopping', 'vf_le_copy', 'vf_le_make', 'vf_le_level', 'vf_le_val', 'vf_le_empty', 'vf_le_size']
 FUN = ['FIX8::Logger::operator()()', 'FIX8::Logger::send', 'FIX8::Logger::enqueue', 'FIX8::Logger::stop', 'FIX8::Logger::is_loggable', 'FIX8::Logger::LogElement ctors (copy, (tid,str,level,fl,val))',
        'FIX8::f8_thread_cancellation_token::request_stop/operator!/stop_requested', 'FIX8::Tickval(bool)/copy']
-STUBS = ['ff_unbounded_queue<LogElement>::try_push := append a copy (real LogElement copy ctor) to an abstract FIFO, returns true; try_pop := scheduling point, then remove the oldest; release := count (contract justified by C30)',
+STUBS = ['ff_unbounded_queue<LogElement>::try_push := append (value, level, text-empty) of the element to an abstract FIFO, returns true; try_pop := scheduling point, then hand out the oldest element rebuilt by the real LogElement constructor; release := count (contract justified by C30)',
          'hypersleep<h_microseconds> := scheduling point with a forced producer step (idle spinning = stuttering)', '_f8_threadcore::join := no-op (the thread body is run by the harness), getid := constant',
          'Logger::process_logline := virtual override in the shim recording (val, level, empty) and a scheduling point; the formatting of the line prefix incl. the sequence number text is outside this check',
          'std::chrono::system_clock::now := arbitrary non-decreasing instants', 'std::string members, operator new: models/cxx.c']
@@ -16,7 +16,7 @@ def build(ctx):
     return ctx.translate(shim, ROOTS, 'c28.c', stubfiles=['common.stubs', 'c28.stubs'], models=['cxx.c', 'stubs.c', 'c28_env.c'], provided=['vf_processed'])
 
 def log(ctx, name, nlines, stopmode, tier, defs, timeout=600):
-    nb = 2 * nlines + 6
+    nb = 2 * nlines + 5
     ctx.add(Harness(name, VERIF + '/harness/C28_log.c', defines=defs + ['NLINES=%d' % nlines, 'STOPMODE=%d' % stopmode, 'VF_MAXCOPY=4'], unwind=4,
                     unwindset=[LOOP + '.0:%d' % nb, 'sched.0:%d' % (nlines + 3), 'main.0:%d' % (nlines + 2), 'main.1:%d' % (nlines + 2), 'main.2:%d' % (nlines + 4), 'vf_copy.0:6'],
                     timeout=timeout, mem_gb=16, functions=FUN, stubs=STUBS, tier=tier,
